@@ -291,3 +291,56 @@ func HarnessC10EndPanicEnd() {
 }
 
 var errC10 = errors.New("boom")
+
+// ---- C10.atlimit: a span at its attribute limit (updates of existing keys are
+// applied in place): End racing SetAttributes on the existing key; the value the
+// processor saw in OnEnd is the value the snapshot holds ever after
+type c10ValueRecorder struct {
+	c10Recorder
+	seen []int64
+}
+
+func (r *c10ValueRecorder) OnEnd(s ReadOnlySpan) {
+	v := int64(-1)
+	if as := s.Attributes(); len(as) == 1 {
+		v = as[0].Value.AsInt64()
+	}
+	r.mu.Lock()
+	r.ended = append(r.ended, s)
+	r.seen = append(r.seen, v)
+	r.mu.Unlock()
+}
+
+func HarnessC10EndMutateAtLimit() {
+	vndRaceOn(true)
+	rec := &c10ValueRecorder{}
+	limits := SpanLimits{AttributeValueLengthLimit: -1, AttributeCountLimit: 1, EventCountLimit: -1, LinkCountLimit: -1,
+		AttributePerEventCountLimit: -1, AttributePerLinkCountLimit: -1}
+	p := &TracerProvider{spanLimits: limits, sampler: AlwaysSample(), idGenerator: &c10IDs{}}
+	sps := spanProcessorStates{newSpanProcessorState(rec)}
+	p.spanProcessors.Store(&sps)
+	tr := &tracer{provider: p}
+	sc := trace.NewSpanContext(trace.SpanContextConfig{TraceID: trace.TraceID{1}, SpanID: trace.SpanID{2}, TraceFlags: trace.FlagsSampled})
+	cfg := trace.NewSpanStartConfig()
+	s := tr.newRecordingSpan(trace.SpanContext{}, sc, "span", SamplingResult{Decision: RecordAndSample}, &cfg)
+	s.SetAttributes(attribute.Int64("a", 1))
+	var wg sync.WaitGroup
+	wg.Add(2)
+	go func() { defer wg.Done(); s.End() }()
+	go func() {
+		defer wg.Done()
+		s.SetAttributes(attribute.Int64("a", 2), attribute.Int64("b", 3))
+	}()
+	wg.Wait()
+	vndReach("joined")
+	vndAssert(len(rec.ended) == 1 && len(rec.seen) == 1, "span-delivered-to-processor-exactly-once")
+	if len(rec.ended) != 1 {
+		return
+	}
+	as := rec.ended[0].Attributes()
+	vndAssert(len(as) == 1, "never-more-attributes-than-the-limit")
+	if len(as) == 1 {
+		vndAssert(rec.seen[0] == 1 || rec.seen[0] == 2, "attributes-mutation-all-or-nothing")
+		vndAssert(as[0].Value.AsInt64() == rec.seen[0], "snapshot-never-changes-after-end")
+	}
+}
